@@ -243,6 +243,7 @@ class P(Prop):
         (M, "TV.C20.projOnTrack3_planimetric", "__projOnTrack on 3D positions is planimetric: (ENUCoords(px, py, 0), d, i) with (d, px, py, i) = proj_polyligne on the (X, Y) of track and query; no altitude is read"),
         (M, "TV.C20.mapOnTrack3_coord", "mapOnTrack(coord, track): one (ENUCoords(px, py, 0), d, i), the planimetric projection of the coordinate"),
         (M, "TV.C20.mapOnTrack3_track", "mapOnTrack(track, track): one row per query in order, row j = (ENUCoords(px, py, 0), d, i) the planimetric projection of query j"),
+        (M, "TV.C20.proj_polyline_skipped_partial", "a skipped segment of NON-zero length < 1e-16 one of whose ends is an end of a kept segment: d <= distance from the query to every point of it + 1e-16 (the error made by skipping it is below the threshold)"),
         (M, "TV.C20.mapOnTrackT_rows", "mapOnTrack(track, track) on track OBJECTS (feature tables, time stamps): the output has exactly the features dist, edge, default time stamps, one observation per query; its positions / dist / edge columns are the point, distance, segment index of THIS projection of query j — whatever features (dist / edge included) the track of queries carried"),
         (M, "TV.C20.mapOnTrackT_ignores_state", "the result of mapOnTrack(track, track) depends on the positions of the two tracks only, not on their analytical features / time stamps"),
         (M, "TV.C20.mapOnTrackT_empty", "a track of queries without observation: AnalyticalFeatureError (createAnalyticalFeature on the empty output)"),
@@ -253,7 +254,9 @@ class P(Prop):
                "strength (point on the carrying segment, index, d = |q - p|, d minimal over every point of every segment, skipped zero-length segments included) "
                "for every NON-vertical orientation; for vertical segments the statement is false of the code (D16, pinned by test_geometry.py::testProjSegment; "
                "proj_segment_min_fails_on_vertical, vertical_as_coded): there only the end points are covered. A skipped segment of non-zero length < 1e-16 is "
-               "covered up to its length. Exact arithmetic: IEEE rounding (D17, horizontal segments) is outside the theorems and sampled by the transfer check; "
+               "covered up to 1e-16 when it touches a kept segment (proj_polyline_skipped_partial); a run of several consecutive skipped segments is not "
+               "stated. mapOnTrackT_nearest_partial carries the same statement through the track form (track objects with features / time stamps, "
+               "chained calls by mapChain_calls). Exact arithmetic: IEEE rounding (D17, horizontal segments) is outside the theorems and sampled by the transfer check; "
                "the numpy form on a vertical segment (inf / nan instead of ZeroDivisionError) is IEEE-only and checked by correspondence"]
     open_statements = ["proj_segment_min (all orientations, vertical included): FALSE of the current code (D16), kept as a comment in Props/C20.lean with its refutation"]
     modelled = ("util/geometry.py cartesienne, projection_droite (b == 0 special case as coded), proj_segment (segment given as list / tuple / numpy array: "
